@@ -150,6 +150,25 @@ func runC12(p *Prog, l *Ledger) {
 					}
 					call, ok := v.(*ssa.Call)
 					if !ok || !p.CallOf(call).Is("(*container/list.List).Len") {
+						// a counter kept next to the list is the list's length if it is stepped only together with the list,
+						// inside the queue's exclusive critical section, and the step down cannot run twice for one element
+						if fr, base, isF := loadedField(v); isF && fr.Type != nil && types.Identical(fr.Type, backlogT) {
+							if why := c12MirrorCounter(p, locks, backlogT, listF, fr); why == "" {
+								held := locks.Held(ins)
+								for _, mu := range mutexFields(backlogT) {
+									if _, ok := held[AccessPath(base).String()+"."+mu]; ok {
+										okLen = true
+									}
+								}
+								if !okLen {
+									bad = append(bad, fmt.Sprintf("%s: the mirrored length is read without the queue mutex", p.At(ins)))
+								}
+								return
+							} else {
+								bad = append(bad, fmt.Sprintf("%s: the reported backlog size is a counter that is not proved to mirror the list: %s", p.At(ins), why))
+								return
+							}
+						}
 						bad = append(bad, fmt.Sprintf("%s: the reported backlog size is not the list's own length (a mirrored counter can drift): %s", p.At(ins), valueString(v)))
 						return
 					}
@@ -764,4 +783,136 @@ func c12Evictors(p *Prog) map[*ssa.Function]bool {
 		}
 	}
 	return evictors
+}
+
+// c12MirrorCounter proves that the integer field cnt of the backlog type equals the length of its list: every
+// post-construction write of cnt is a step of +1 or -1 made holding the queue's mutex exclusively; every path through a
+// +1 inserts exactly one element into the list and every inserting path steps up exactly once; every path through a -1
+// removes an element exactly once, every removing path steps down exactly once, and the step down is taken only on the
+// "not yet" edge of a test of a boolean field that the same path then sets (list.Remove is idempotent, a decrement is
+// not: an eviction function runs twice when a give-up coincides with the hand-off). Returns "" or the reason.
+func c12MirrorCounter(p *Prog, locks *LockInfo, backlogT *types.Named, listF, cnt FieldRef) string {
+	isListOp := func(ins ssa.Instruction, names ...string) bool {
+		c := p.CallOf(ins)
+		if c == nil || !c.Is(names...) {
+			return false
+		}
+		fr, _, ok := fieldPointerLoad(c.Recv)
+		return ok && sameField(fr, listF)
+	}
+	nUp, nDown := 0, 0
+	for _, f := range p.Funcs {
+		if !p.InPkg(f, "limiter") {
+			continue
+		}
+		var steps []Delta
+		for _, a := range p.Accesses(f) {
+			if !a.Write || !sameField(a.Field, cnt) || freshBase(a) {
+				continue
+			}
+			d, ok := p.DeltaOf(a.Instr)
+			if !ok || (d.By != 1 && d.By != -1) {
+				return fmt.Sprintf("%s: the counter is written by something other than a step of one", p.At(a.Instr))
+			}
+			exclusive := false
+			for _, mu := range mutexFields(backlogT) {
+				if ex, ok := locks.Held(a.Instr)[AccessPath(a.Base).String()+"."+mu]; ok && ex {
+					exclusive = true
+				}
+			}
+			if !exclusive {
+				return fmt.Sprintf("%s: the counter is stepped without the queue's exclusive mutex", p.At(a.Instr))
+			}
+			steps = append(steps, d)
+		}
+		touchesList := false
+		allInstrs(f, func(ins ssa.Instruction) {
+			if isListOp(ins, "(*container/list.List).PushFront", "(*container/list.List).PushBack", "(*container/list.List).Remove", "(*container/list.List).Init", "(*container/list.List).InsertBefore", "(*container/list.List).InsertAfter", "(*container/list.List).PushBackList", "(*container/list.List).PushFrontList") {
+				touchesList = true
+			}
+		})
+		if len(steps) == 0 && !touchesList {
+			continue
+		}
+		why := ""
+		_, trunc := EnumPaths(f, 20000, func(pa *Path) bool {
+			if !pa.IsReturn() {
+				return true
+			}
+			ups, downs, pushes, removes := 0, 0, 0, 0
+			var downAt ssa.Instruction
+			pa.Each(func(step int, ins ssa.Instruction) bool {
+				if d, ok := p.DeltaOf(ins); ok && sameField(d.Field, cnt) {
+					if d.By > 0 {
+						ups++
+					} else {
+						downs++
+						downAt = ins
+					}
+				}
+				switch {
+				case isListOp(ins, "(*container/list.List).PushFront", "(*container/list.List).PushBack", "(*container/list.List).InsertBefore", "(*container/list.List).InsertAfter"):
+					pushes++
+				case isListOp(ins, "(*container/list.List).Remove"):
+					removes++
+				case isListOp(ins, "(*container/list.List).Init", "(*container/list.List).PushBackList", "(*container/list.List).PushFrontList"):
+					why = fmt.Sprintf("%s: the list is changed wholesale", p.At(ins))
+				}
+				return true
+			})
+			if why != "" {
+				return false
+			}
+			if ups != pushes || ups > 1 {
+				why = "a path inserts into the list and steps the counter up a different number of times: " + joinWitness(p.DescribePath(pa))
+				return false
+			}
+			if downs != removes || downs > 1 {
+				why = "a path removes from the list and steps the counter down a different number of times: " + joinWitness(p.DescribePath(pa))
+				return false
+			}
+			nUp += ups
+			if downs == 1 {
+				nDown++
+				// first-time guard: a boolean field tested false on this path and set true on it
+				guarded := false
+				for _, fact := range pa.Facts {
+					fr, _, ok := loadedField(strip(fact.Cond, false))
+					if !ok || fr.Type == nil || fact.True {
+						continue
+					}
+					if b, isB := fact.Cond.Type().Underlying().(*types.Basic); !isB || b.Kind() != types.Bool {
+						continue
+					}
+					pa.Each(func(step int, ins ssa.Instruction) bool {
+						if st, ok := ins.(*ssa.Store); ok {
+							if fa, ok := st.Addr.(*ssa.FieldAddr); ok {
+								if f2, _, ok := fieldOf(fa); ok && sameField(f2, fr) {
+									if c, ok := st.Val.(*ssa.Const); ok && c.Value != nil && c.Value.String() == "true" {
+										guarded = true
+									}
+								}
+							}
+						}
+						return true
+					})
+				}
+				if !guarded {
+					why = fmt.Sprintf("%s: the step down is not behind a first-time test (a flag tested unset and then set on the same path): the eviction function can run twice for one waiter", p.At(downAt))
+					return false
+				}
+			}
+			return true
+		})
+		if why != "" {
+			return why
+		}
+		if trunc {
+			return "path enumeration truncated in " + p.Key(f)
+		}
+	}
+	if nUp == 0 || nDown == 0 {
+		return "the counter is not stepped up with insertions and down with removals"
+	}
+	return ""
 }
